@@ -3,7 +3,7 @@
    This file contains definitions only. *)
 From Coq Require Import List Arith ZArith QArith Lia Bool Setoid Morphisms Permutation Lqa FinFun.
 Import ListNotations.
-Open Scope Q_scope.
+Local Open Scope Q_scope.
 From DS Require Import Util.SumQ.
 
 Fixpoint masks (n : nat) : list (list bool) :=
